@@ -26,6 +26,7 @@ pub struct C03Check;
 pub static C03: C03Check = C03Check;
 
 const MTYPES: &[&str] = &["SINT", "INT", "DINT", "LINT", "USINT", "UINT", "UDINT", "ULINT", "REAL", "LREAL", "BYTE", "WORD", "DWORD", "LWORD", "TIME", "LTIME"];
+const DEBUG_TYPES: &[&str] = &["BOOL", "SINT", "INT", "DINT", "LINT", "USINT", "UINT", "UDINT", "ULINT", "BYTE", "WORD", "DWORD", "LWORD"];
 const MECHS: &[&str] = &["assign", "init", "fb-input", "fb-inout", "func-return", "struct-field", "array-elem", "subrange-assign", "arith-literal", "for-control", "fb-output-read"];
 
 fn lit(ty: &str, v: i64) -> String {
@@ -230,7 +231,103 @@ fn slot_class(path: &str) -> &'static str {
     }
 }
 
+/// a minimal real control endpoint around a runtime's DebugControl (no auth, debug enabled, stub resource)
+fn control_state(rt: &mut Runtime) -> (std::sync::Arc<trust_runtime::control::ControlState>, trust_runtime::debug::DebugControl) {
+    use indexmap::IndexMap;
+    use smol_str::SmolStr;
+    use std::sync::atomic::AtomicBool;
+    use std::sync::{Arc, Mutex};
+    use trust_runtime::control::{ControlState, HmiRuntimeDescriptor, SourceFile, SourceRegistry};
+    use trust_runtime::scheduler::{ResourceControl, StdClock};
+    use trust_runtime::settings::{BaseSettings, DiscoverySettings, MeshSettings, RuntimeSettings, SimulationSettings, WebSettings};
+    let debug = rt.enable_debug();
+    let metadata = rt.metadata_snapshot();
+    let (resource, _cmd_rx) = ResourceControl::stub(StdClock::new());
+    let sources = SourceRegistry::new(vec![SourceFile { id: 1, path: std::path::PathBuf::from("main.st"), text: String::new() }]);
+    let hmi_descriptor = Arc::new(Mutex::new(HmiRuntimeDescriptor::from_sources(None, &sources)));
+    let settings = RuntimeSettings::new(
+        BaseSettings {
+            log_level: SmolStr::new("info"),
+            watchdog: trust_runtime::watchdog::WatchdogPolicy::default(),
+            fault_policy: trust_runtime::watchdog::FaultPolicy::Halt,
+            retain_mode: trust_runtime::watchdog::RetainMode::None,
+            retain_save_interval: None,
+        },
+        WebSettings { enabled: false, listen: SmolStr::new("127.0.0.1:0"), auth: SmolStr::new("local"), tls: false },
+        DiscoverySettings { enabled: false, service_name: SmolStr::new("truST"), advertise: false, interfaces: Vec::new() },
+        MeshSettings { enabled: false, listen: SmolStr::new("127.0.0.1:0"), tls: false, auth_token: None, publish: Vec::new(), subscribe: IndexMap::new() },
+        SimulationSettings { enabled: false, time_scale: 1, mode_label: SmolStr::new("production"), warning: SmolStr::new("") },
+    );
+    let state = ControlState {
+        debug: debug.clone(),
+        resource,
+        metadata: Arc::new(Mutex::new(metadata)),
+        sources,
+        io_snapshot: Arc::new(Mutex::new(None)),
+        pending_restart: Arc::new(Mutex::new(None)),
+        auth_token: Arc::new(Mutex::new(None)),
+        control_requires_auth: false,
+        control_mode: Arc::new(Mutex::new(trust_runtime::config::ControlMode::Debug)),
+        audit_tx: None,
+        metrics: Arc::new(Mutex::new(trust_runtime::metrics::RuntimeMetrics::default())),
+        events: Arc::new(Mutex::new(std::collections::VecDeque::new())),
+        settings: Arc::new(Mutex::new(settings)),
+        project_root: None,
+        resource_name: SmolStr::new("RES"),
+        io_health: Arc::new(Mutex::new(Vec::new())),
+        debug_enabled: Arc::new(AtomicBool::new(true)),
+        debug_variables: Arc::new(Mutex::new(trust_runtime::debug::DebugVariableHandles::new())),
+        hmi_live: Arc::new(Mutex::new(trust_runtime::hmi::HmiLiveState::default())),
+        hmi_descriptor,
+        historian: None,
+        pairing: None,
+    };
+    (Arc::new(state), debug)
+}
+
 impl C03Check {
+    /// debugger writes through the real control endpoint (hook H7): `set` (one-shot) and `var.force`
+    fn run_debugger(&self, case: &Json, stats: &mut Stats) -> Result<(), Violation> {
+        let ty = case["ty"].as_str().unwrap_or("INT");
+        let request = case["request"].as_str().unwrap_or("var.force");
+        let init = if ty == "BOOL" { "FALSE".to_string() } else { lit(ty, 1) };
+        let source = format!("CONFIGURATION C\nVAR_GLOBAL\n  g : {ty} := {init};\n  n : DINT;\nEND_VAR\nPROGRAM P0 : Main;\nEND_CONFIGURATION\nPROGRAM Main\nVAR_EXTERNAL\n  n : DINT;\nEND_VAR\nn := n + 1;\nEND_PROGRAM\n");
+        let mut rt = match guard("compile", || world::compile(&source))? {
+            Ok(rt) => rt,
+            Err(e) => return Err(Violation::new("harness/compile-rejected", format!("{e}\n{source}"))),
+        };
+        let global_tags = world::tag_walk(&rt).into_iter().filter(|(p, _)| !p.contains('.')).collect::<Vec<_>>();
+        let (state, _debug) = control_state(&mut rt);
+        let value = if ty == "BOOL" { "TRUE" } else { "5" };
+        let line = json!({"id": 1, "type": request, "params": {"target": "global:g", "value": value}}).to_string();
+        let reply = guard("control request", || trust_runtime::control::verif_handle_request_line(&line, &state, Some("sim")))?;
+        let reply_json: Json = reply.as_deref().and_then(|r| serde_json::from_str(r).ok()).unwrap_or(Json::Null);
+        stats.log(&format!("{request}:{ty}:{}", reply_json["ok"]));
+        if reply_json["ok"] != true {
+            // a refusal changes nothing and is fine
+            stats.inc("debugger.request_refused");
+            return Ok(());
+        }
+        stats.inc("debugger.request_accepted");
+        let mut h = Fnv::new();
+        h.str(request).str(ty);
+        stats.nontrivial(h.finish());
+        for cycle in 0..2 {
+            rt.set_current_time(Duration::from_nanos((cycle + 1) * 10_000_000));
+            if guard("execute_cycle", || rt.execute_cycle())?.is_err() {
+                return Ok(());
+            }
+            if let Some((path, want, got)) = world::tag_drift(&rt, &global_tags).first() {
+                let kind = if request == "set" { "debugger-write" } else { "debugger-force" };
+                return Err(Violation::new(
+                    format!("tag/{kind}/{}", if *want == "LINT" { "same-type" } else { "mixed-type" }),
+                    format!("{request} global:g := {value} through the control endpoint: {path} declared {want} holds {got} after cycle {cycle}"),
+                ));
+            }
+        }
+        Ok(())
+    }
+
     fn matrix_cells() -> Vec<(usize, usize, usize)> {
         let mut cells = vec![];
         for (mi, mech) in MECHS.iter().enumerate() {
@@ -415,7 +512,7 @@ impl Check for C03Check {
         "C03"
     }
     fn cases(&self, tier: Tier) -> u64 {
-        let m = Self::matrix_cells().len() as u64;
+        let m = Self::matrix_cells().len() as u64 + DEBUG_TYPES.len() as u64 * 2;
         match tier {
             Tier::Quick => m + 1_500,
             Tier::Thorough => m + 30_000,
@@ -428,7 +525,7 @@ impl Check for C03Check {
         vec![
             "globals have no declared-type accessor: their build-time tag (initialisers are coerced at compile time) is the reference",
             "hidden state of standard FBs is not judged, only declared parameters and variables",
-            "debugger writes are not explored here (they need the control endpoint's value parser; see C18)",
+            "debugger writes go through the real control endpoint (`set` and `var.force` requests on a global of each integer/bit-string type, hook H7); the DAP adapter's own setVariable path is not run",
             "drift is attributed to the operation and, by ProgGen's naming scheme, to the slot class that was written (in_* = I/O latch, k* = FOR control, x/go = FB input, else assignment)",
         ]
     }
@@ -444,6 +541,10 @@ impl Check for C03Check {
         if (index as usize) < cells.len() {
             let (mi, di, si) = cells[index as usize];
             return json!({"kind": "matrix", "mech": MECHS[mi], "dst": MTYPES[di], "src": MTYPES[si]});
+        }
+        let dbg = index as usize - cells.len();
+        if dbg < DEBUG_TYPES.len() * 2 {
+            return json!({"kind": "debugger", "ty": DEBUG_TYPES[dbg / 2], "request": if dbg % 2 == 0 { "set" } else { "var.force" }});
         }
         let mut kr = rng.fork("knobs");
         let mut pr = rng.fork("project");
@@ -469,7 +570,7 @@ impl Check for C03Check {
     }
 
     fn shrink(&self, case: &Json) -> Vec<Json> {
-        if case["kind"] == "matrix" {
+        if case["kind"] == "matrix" || case["kind"] == "debugger" {
             return vec![];
         }
         let mut out = crate::framework::shrink_generic(case);
@@ -484,6 +585,8 @@ impl Check for C03Check {
     fn run(&self, case: &Json, stats: &mut Stats) -> Result<(), Violation> {
         if case["kind"] == "matrix" {
             self.run_matrix(case, stats)
+        } else if case["kind"] == "debugger" {
+            self.run_debugger(case, stats)
         } else {
             self.run_history(case, stats)
         }
